@@ -1,4 +1,5 @@
 """Implementation-side observations of the version domain (C01, C02, C12-version)."""
+import json
 import random
 from packaging.version import Version, InvalidVersion
 from packaging.utils import canonicalize_version
@@ -23,6 +24,12 @@ def observe(cmd, args):
         if x is None or y is None: return "E"
         fl = [x < y, x <= y, x == y, x != y, x >= y, x > y]
         return "".join(b(f) for f in fl) + "|" + ("<" if fl[0] else "=" if fl[2] else ">")
+    if cmd == "v.cmph":
+        # v.cmp plus: do the two hashes agree (model side: are the two keys structurally equal)
+        x, y = parse(args[0]), parse(args[1])
+        if x is None or y is None: return "E"
+        fl = [x < y, x <= y, x == y, x != y, x >= y, x > y]
+        return "".join(b(f) for f in fl) + "|" + ("<" if fl[0] else "=" if fl[2] else ">") + "|" + b(hash(x) == hash(y))
     if cmd == "v.sort":
         vs = [parse(a) for a in args]
         if any(v is None for v in vs): return "E"
@@ -90,5 +97,33 @@ def observe(cmd, args):
         if p is None or bs is None: return "public/base_version does not parse"
         if (p.epoch, p.release, p.pre, p.post, p.dev, p.local) != (v.epoch, v.release, v.pre, v.post, v.dev, None): return "public is not v without local"
         if (bs.epoch, bs.release, bs.pre, bs.post, bs.dev, bs.local) != (v.epoch, v.release, None, None, None, None): return "base_version is not epoch+release"
+        return "ok"
+    if cmd == "law.v.rank":
+        # independent oracle: args = [a, b, rel] with rel in "<=>" computed by the harness from the structured versions (gen.rank)
+        x, y = parse(args[0]), parse(args[1])
+        if x is None or y is None: return "spelling of a structured version rejected: %r %r" % (args[0], args[1])
+        want = {"<": (True, True, False, True, False, False), "=": (False, True, True, False, True, False),
+                ">": (False, False, False, True, True, True)}[args[2]]
+        got = (x < y, x <= y, x == y, x != y, x >= y, x > y)
+        if got != want: return "operators %s disagree with the reference order %s" % ("".join(b(f) for f in got), args[2])
+        rev = (y > x, y >= x, y == x, y != x, y <= x, y < x)
+        if rev != want: return "mirrored operators %s disagree with the reference order %s" % ("".join(b(f) for f in rev), args[2])
+        if args[2] == "=" and hash(x) != hash(y): return "reference-equal versions hash differently"
+        if args[2] == "=" and len({x, y}) != 1: return "reference-equal versions do not collapse in a set"
+        if args[2] != "=" and len({x, y}) != 2: return "reference-different versions collapse in a set"
+        s2 = sorted([y, x]); lo, hi = (x, y) if args[2] != ">" else (y, x)
+        if args[2] != "=" and not (s2[0] is lo and s2[1] is hi): return "sorted() disagrees with the reference order"
+        return "ok"
+    if cmd == "law.v.reading":
+        # independent oracle: args = [spelling, json(reading of the structured version it was spelled from)]
+        v = parse(args[0]); w = json.loads(args[1])
+        if v is None: return "spelling of a structured version rejected"
+        got = {"str": str(v), "epoch": v.epoch, "release": list(v.release), "pre": list(v.pre) if v.pre is not None else None,
+               "post": v.post, "dev": v.dev, "local": v.local, "public": v.public, "base": v.base_version,
+               "is_pre": v.is_prerelease, "is_post": v.is_postrelease, "is_dev": v.is_devrelease,
+               "major": v.major, "minor": v.minor, "micro": v.micro}
+        for k in w:
+            if got[k] != w[k] or type(got[k]) is not type(w[k]): return "%s is %r, the PEP 440 reading is %r" % (k, got[k], w[k])
+        if canonicalize_version(args[0], strip_trailing_zero=False) != w["str"]: return "canonicalize_version(strip_trailing_zero=False) is not the normal form"
         return "ok"
     raise KeyError(cmd)
